@@ -215,7 +215,7 @@ def replay(case, ctx):
 def strategy():
     from hypothesis import strategies as st
     S = values.strategies()
-    msg = st.text(alphabet="abcdefg XYZ012.,-", max_size=10)
+    msg = st.text(alphabet="abcdefg XYZ012.,-é\udce9", max_size=10)
     elem = st.one_of(
         S.scalar.map(lambda v: {"kind": "value", "v": v}),
         st.integers(0, 50).map(lambda i: {"kind": "value", "v": {"t": "int", "v": str(i)}}),
